@@ -92,6 +92,8 @@ var propDrivers = map[string]*propDriver{
 		"C06 claims: absence of run-time panics (index, slice bounds, nil dereference, failed type assertion, division, make with negative length) for every repository function under its contract, callee preconditions at every call site, and value-xor-error for every constructor",
 		"termination is proved only implicitly for unit-stride loops (the auto-summary bounds the iteration count by the loop guard); while-style loops and the time bound (at most quadratic) are not decided by this technique",
 	}},
+	"C04": {extra: func(w *World, tier string) []VC { return w.versShapeVCs(tier) },
+		notes: []string{"C04's interval semantics is a bounded stand-in (exhaustive enumeration of comparator shapes on the real vers.Contains), never counted as proved; the per-function contracts of the VERS chain that are proved are listed under discharged"}},
 	"C08": {extra: func(w *World, tier string) []VC {
 		var vcs []VC
 		for _, eco := range []string{"semver", "npm", "cargo", "hex", "golang", "nuget"} {
